@@ -61,7 +61,7 @@ class Groups(LoopSpec):
         return S.cmp("==", self.obj.fields["chain_length"], S.add(self.entry, S.mul(k, per)))
 
 
-@contract("C15", "advance_count", native=False)
+@contract("C15", "advance_count", native=False, replay_with="advance_native")
 def advance_count(vc):
     m = vc.int("m", lo=0)
     L0 = vc.int("L0", lo=1)
@@ -137,7 +137,7 @@ def _divisor_name(vc, module, qualname, target):
     raise Unsupported("run_for: the batch size is not recomputed as <steps> / <elapsed>")
 
 
-@contract("C15", "run_for", native=False)
+@contract("C15", "run_for", native=False, replay_with="advance_native")
 def run_for_progress(vc):
     L0 = vc.int("L0", lo=1)
     minutes = vc.real("minutes", lo=0)
@@ -263,12 +263,12 @@ def run_for_native(vc):
 
 
 from contracts.mcmc_gibbs import gibbs_take_step
-contract("C15", "gibbs_take_step", native=False)(gibbs_take_step)
+contract("C15", "gibbs_take_step", native=False, replay_with="advance_native")(gibbs_take_step)
 
 
 from contracts.mcmc_pca import pca_take_step
-contract("C15", "pca_take_step", native=False)(pca_take_step)
+contract("C15", "pca_take_step", native=False, replay_with="advance_native")(pca_take_step)
 
 
 from contracts.mcmc_hmc import hmc_take_step
-contract("C15", "hmc_take_step", native=False)(hmc_take_step)
+contract("C15", "hmc_take_step", native=False, replay_with="advance_native")(hmc_take_step)
